@@ -120,6 +120,170 @@ theorem table_length (t : Tab H) (p : Nat) (h : H) :
     (t.remove p).length = t.length ∧ (t.insert p h).length = max t.length (p + 1) :=
   ⟨Tab.length_remove t p, Tab.length_insert t p h⟩
 
+/-! ### run level: the table never exceeds `max PID + 1` slots
+
+`table_length` above is a one-step equation.  The run-level statement needs a bound on the PIDs that
+packets carry and that handlers name in their changes; it is stated for EVERY `sem` relative to a
+context invariant `I` (for the application of `Ts/Model/App.lean`, `I` is "the recorder script names
+13-bit PIDs only": `Ts.Lemmas.C19.ScriptOk`, and the instance at `n = 0x1fff` — together with the
+bound on the reassembly buffers — is `Ts.Lemmas.C19.pushSpec_inv` / `Ts.Props.C19.bounded_push`,
+`retained_bounded`; C19 is not imported here). -/
+
+/-- applying changes that name PIDs `≤ n` keeps a table of at most `n + 1` slots within `n + 1` -/
+theorem applyChanges_length_le (n : Nat) (cs : List (Change H)) : ∀ (t : Tab H),
+    t.length ≤ n + 1 → (∀ ch ∈ cs, ch.pid ≤ n) → (applyChanges t cs).length ≤ n + 1 := by
+  induction cs with
+  | nil => intro t ht _; exact ht
+  | cons ch cs ih =>
+    intro t ht hcs
+    rw [apply_one]
+    apply ih
+    · cases ch with
+      | insert p h =>
+        have hp : p ≤ n := hcs (.insert p h) (List.mem_cons_self ..)
+        show (t.insert p h).length ≤ n + 1
+        rw [Tab.length_insert]; omega
+      | remove p =>
+        show (t.remove p).length ≤ n + 1
+        rw [Tab.length_remove]; exact ht
+    · intro x hx; exact hcs x (List.mem_cons_of_mem _ hx)
+
+/-- **One packet.**  Hypotheses: `hcons` — from a context satisfying `I`, `consume` keeps `I` and
+only queues changes naming PIDs `≤ n`; `hmk` — `construct` keeps `I`; the table has at most `n + 1`
+slots, the context satisfies `I`, the packet's PID is `≤ n`, and the step does not panic.
+Conclusion: at most `n + 1` slots afterwards, and `I` still holds. -/
+theorem table_length_step (sem : Sem H C) (I : C → Prop) (n : Nat)
+    (hcons : ∀ h c pk h' c' chg, I c → sem.consume h c pk = .ok (h', c', chg) →
+      I c' ∧ ∀ ch ∈ chg, ch.pid ≤ n)
+    (hmk : ∀ c p h c', I c → sem.construct c p = .ok (h, c') → I c')
+    (t : Tab H) (c : C) (pk : Pk) (t' : Tab H) (c' : C)
+    (ht : t.length ≤ n + 1) (hc : I c) (hp : pk.pid ≤ n)
+    (hs : specStep sem (t, c) pk = .ok (t', c')) : t'.length ≤ n + 1 ∧ I c' := by
+  rw [specStep_eq] at hs
+  -- the table after lookup-or-construct
+  have hens : ∀ t1 c1, ensure sem t c pk.pid = .ok (t1, c1) → t1.length ≤ n + 1 ∧ I c1 := by
+    intro t1 c1 he
+    by_cases hcn : t.contains pk.pid = true
+    · rw [ensure_of_contains sem t c pk.pid hcn] at he
+      cases he; exact ⟨ht, hc⟩
+    · rw [ensure_of_absent sem t c pk.pid (by simpa using hcn)] at he
+      cases hk : sem.construct c pk.pid with
+      | panic s => rw [hk] at he; cases he
+      | ok r =>
+        obtain ⟨hn, cn⟩ := r
+        rw [hk] at he
+        simp only [R.ok_bind] at he
+        cases he
+        exact ⟨by rw [Tab.length_insert]; omega, hmk c pk.pid hn c1 hc hk⟩
+  cases he : ensure sem t c pk.pid with
+  | panic s => rw [he] at hs; cases hs
+  | ok r =>
+    obtain ⟨t1, c1⟩ := r
+    obtain ⟨ht1, hc1⟩ := hens t1 c1 he
+    rw [he] at hs
+    simp only [R.ok_bind] at hs
+    by_cases hf : pk.flagged = true
+    · simp only [hf, if_true] at hs
+      cases hs; exact ⟨ht1, hc1⟩
+    · simp only [hf, Bool.false_eq_true, if_false] at hs
+      cases hg : t1.get pk.pid with
+      | none => rw [hg] at hs; cases hs
+      | some h =>
+        rw [hg] at hs
+        dsimp only at hs
+        cases hC : sem.consume h c1 pk with
+        | panic s => rw [hC] at hs; cases hs
+        | ok x =>
+          obtain ⟨h', c'', chg⟩ := x
+          rw [hC] at hs
+          simp only [R.ok_bind] at hs
+          cases hs
+          obtain ⟨hI, hchg⟩ := hcons h c1 pk h' c' chg hc1 hC
+          refine ⟨applyChanges_length_le n chg _ ?_ hchg, hI⟩
+          rw [Tab.length_insert]; omega
+
+/-- **Whole run (`pushSpec`, and `pushModel` = the real loops by C06).**  Under the hypotheses of
+`table_length_step` for every packet of the run (all PIDs `≤ n`), a run that does not panic ends
+with at most `n + 1` slots.  With `n = 0x1fff` (every framed packet has a 13-bit PID): the table
+length never exceeds max PID + 1 = 8192. -/
+theorem table_length_run (sem : Sem H C) (I : C → Prop) (n : Nat)
+    (hcons : ∀ h c pk h' c' chg, I c → sem.consume h c pk = .ok (h', c', chg) →
+      I c' ∧ ∀ ch ∈ chg, ch.pid ≤ n)
+    (hmk : ∀ c p h c', I c → sem.construct c p = .ok (h, c') → I c') :
+    ∀ (pks : List Pk) (tc tc' : Tab H × C), (∀ pk ∈ pks, pk.pid ≤ n) →
+      tc.1.length ≤ n + 1 → I tc.2 →
+      (pushSpec sem tc pks = .ok tc' → tc'.1.length ≤ n + 1 ∧ I tc'.2) ∧
+      (pushModel sem tc pks = .ok tc' → tc'.1.length ≤ n + 1 ∧ I tc'.2) := by
+  have key : ∀ (pks : List Pk) (tc tc' : Tab H × C), (∀ pk ∈ pks, pk.pid ≤ n) →
+      tc.1.length ≤ n + 1 → I tc.2 → pushSpec sem tc pks = .ok tc' →
+      tc'.1.length ≤ n + 1 ∧ I tc'.2 := by
+    intro pks
+    induction pks with
+    | nil => intro tc tc' _ ht hc h; rw [pushSpec_nil] at h; cases h; exact ⟨ht, hc⟩
+    | cons pk rest ih =>
+      intro tc tc' hp ht hc h
+      rw [pushSpec_cons] at h
+      cases hs : specStep sem tc pk with
+      | panic s => rw [hs] at h; cases h
+      | ok tc1 =>
+        rw [hs] at h
+        simp only [R.ok_bind] at h
+        obtain ⟨t, c⟩ := tc
+        obtain ⟨t1, c1⟩ := tc1
+        obtain ⟨h1, h2⟩ := table_length_step sem I n hcons hmk t c pk t1 c1 ht hc
+          (hp pk (List.mem_cons_self ..)) hs
+        exact ih (t1, c1) tc' (fun q hq => hp q (List.mem_cons_of_mem _ hq)) h1 h2 h
+  intro pks tc tc' hp ht hc
+  refine ⟨key pks tc tc' hp ht hc, ?_⟩
+  intro h
+  rw [C06.push_refines_spec] at h
+  exact key pks tc tc' hp ht hc h
+
+/-- the 13-bit instance, spelled out: PIDs `≤ 0x1fff` give at most 8192 slots -/
+theorem table_length_run_13bit (sem : Sem H C) (I : C → Prop)
+    (hcons : ∀ h c pk h' c' chg, I c → sem.consume h c pk = .ok (h', c', chg) →
+      I c' ∧ ∀ ch ∈ chg, ch.pid ≤ 0x1fff)
+    (hmk : ∀ c p h c', I c → sem.construct c p = .ok (h, c') → I c')
+    (pks : List Pk) (tc tc' : Tab H × C) (hp : ∀ pk ∈ pks, pk.pid ≤ 0x1fff)
+    (ht : tc.1.length ≤ 8192) (hc : I tc.2) (h : pushModel sem tc pks = .ok tc') :
+    tc'.1.length ≤ 8192 :=
+  ((table_length_run sem I 0x1fff hcons hmk pks tc tc' hp ht hc).2 h).1
+
+/-- the bound is attained and the PID hypothesis is needed: one packet on PID `n` grows the empty
+table to exactly `n + 1` slots (`exSem`, `n = 9`) -/
+example : (pushModel exSem ([], []) [exPk 9 false false]).isOk = true ∧
+    (match pushModel exSem ([], []) [exPk 9 false false] with
+     | .ok tc => tc.1.length | .panic _ => 0) = 10 := ⟨rfl, rfl⟩
+
+/-- the hypotheses of `table_length_run` are satisfiable: `exSem` with `I := True`, `n = 7` (its
+handlers name the PIDs 1, 2, 3, 7), on the three-packet run used below -/
+example : ∀ tc', pushModel exSem ([], []) [exPk 1 false false, exPk 1 false false, exPk 4 false false] = .ok tc' →
+    tc'.1.length ≤ 8 := by
+  intro tc' h
+  refine ((table_length_run exSem (fun _ => True) 7 ?_ ?_ _ ([], []) tc' ?_ (by decide) trivial).2 h).1
+  · intro h c pk h' c' chg _ hC
+    refine ⟨trivial, ?_⟩
+    have : chg = (if pk.pid == 1 then [.insert 2 50, .remove 1]
+        else if pk.pid == 3 then [.remove 3, .insert 3 70]
+        else if pk.pid == 4 then [.remove 7] else []) := by
+      cases hC; rfl
+    subst this
+    intro ch hch
+    split at hch
+    · simp only [List.mem_cons, List.not_mem_nil, or_false] at hch
+      rcases hch with rfl | rfl <;> decide
+    · split at hch
+      · simp only [List.mem_cons, List.not_mem_nil, or_false] at hch
+        rcases hch with rfl | rfl <;> decide
+      · split at hch
+        · simp only [List.mem_cons, List.not_mem_nil, or_false] at hch
+          subst hch; decide
+        · cases hch
+  · intros; trivial
+  · intro pk hpk
+    simp only [List.mem_cons, List.not_mem_nil, or_false] at hpk
+    rcases hpk with rfl | rfl | rfl <;> decide
+
 /-- a handler may REPLACE itself: if the last change it queues for its own PID is `insert pid h2`,
 then after the step the slot holds `h2`, overriding the in-place update `h'` -/
 theorem self_replace (sem : Sem H C) (t : Tab H) (c : C) (pk : Pk)
